@@ -136,6 +136,9 @@ func (dist *ExponentialDistribution) ImportConfig(config ConfigDistribution, t S
   if parameters, ok := config.GetParametersAsFloats(); !ok {
     return fmt.Errorf("invalid config file")
   } else {
+    if len(parameters) != 1 {
+      return fmt.Errorf("invalid config file")
+    }
     lambda := NewScalar(t, parameters[0])
 
     if tmp, err := NewExponentialDistribution(lambda); err != nil {
